@@ -96,7 +96,31 @@ def fluid_classes(tree):
                         raise Unsupported("FluidPropertyPolynominal.to_dict / from_dict not recognised (%s)" % need)
     if entries is None or excludes is None:
         raise Unsupported("prop_getter_entries / json_excludes not found")
-    return out, entries, excludes
+    extra = {"poly_fields": [], "poly_excludes": [], "fill_none_codec": False}
+    for node in tree.body:
+        if isinstance(node, ast.ClassDef) and node.name == "FluidPropertyPolynominal":
+            for st in node.body:
+                if isinstance(st, ast.Assign) and isinstance(st.targets[0], ast.Name) and st.targets[0].id == "json_excludes":
+                    if not (isinstance(st.value, ast.BinOp) and isinstance(st.value.right, ast.List)):
+                        raise Unsupported("FluidPropertyPolynominal.json_excludes shape")
+                    extra["poly_excludes"] = [e.value for e in st.value.right.elts]
+            stored, popped = [], []
+            for f in node.body:
+                if isinstance(f, ast.FunctionDef) and f.name == "to_dict":
+                    stored = [n.targets[0].slice.value for n in ast.walk(f) if isinstance(n, ast.Assign) and
+                              isinstance(n.targets[0], ast.Subscript) and ast.unparse(n.targets[0].value) == "d"
+                              and isinstance(n.targets[0].slice, ast.Constant)]
+                if isinstance(f, ast.FunctionDef) and f.name == "from_dict":
+                    popped = [n.args[0].value for n in ast.walk(f) if isinstance(n, ast.Call) and
+                              ast.unparse(n.func) == "d.pop" and isinstance(n.args[0], ast.Constant)]
+            if sorted(stored) != sorted(popped):
+                raise Unsupported("FluidPropertyPolynominal: to_dict stores %s, from_dict pops %s" % (stored, popped))
+            extra["poly_fields"] = stored
+        if isinstance(node, ast.ClassDef) and node.name == "FluidPropertyInterExtra":
+            src = ast.unparse(node).replace('"', "'")
+            extra["fill_none_codec"] = ("if not isinstance(d['_fill_value_orig'], str):\n            d['_fill_value_orig'] = None" in src
+                                        and "if d2.get('fill_value', '') is None:\n            del d2['fill_value']" in src)
+    return out, entries, excludes, extra
 
 
 def convert_guard(tree):
@@ -124,7 +148,7 @@ def file_io_facts(tree):
 def generate():
     kf = key_filters(_parse("io/io_utils.py"))
     reg = registry(_parse("io/io_utils.py"))
-    classes, entries, excludes = fluid_classes(_parse("properties/fluids.py"))
+    classes, entries, excludes, extra = fluid_classes(_parse("properties/fluids.py"))
     convert_guard(_parse("io/convert_format.py"))
     file_io_facts(_parse("io/file_io.py"))
     lines = ["(* GENERATED by tools/translate/codecfacts.py from pandapipes/io/*.py, properties/fluids.py - do not edit *)",
@@ -133,12 +157,15 @@ def generate():
              "Definition getter_entries : list (string * string) := %s." %
              clist(["(%s, %s)" % (cstr(k), cstr(v)) for k, v in entries.items()]),
              "Definition inter_excludes : list string := %s." % clist([cstr(x) for x in excludes]),
+             "Definition poly_fields : list string := %s." % clist([cstr(x) for x in extra["poly_fields"]]),
+             "Definition poly_excludes : list string := %s." % clist([cstr(x) for x in extra["poly_excludes"]]),
+             "Definition inter_fill_none_codec : bool := %s." % cbool(extra["fill_none_codec"]),
              "Definition registry_names : list string := %s." % clist([cstr(n) for n, _, _ in reg]),
              "(* class, overrides to_dict, overrides from_dict *)",
              "Definition fluid_classes : list (string * bool * bool) := %s." %
              clist(["(%s, %s, %s)" % (cstr(n), cbool(t), cbool(f)) for n, _, t, f in classes]), ""]
     facts = {"key_prefixes": [p for _, p in kf], "prop_getter_entries": list(entries.keys()), "excludes": excludes,
-             "registry": reg, "classes": classes}
+             "registry": reg, "classes": classes, "extra": extra}
     return "\n".join(lines), facts
 
 
